@@ -11,6 +11,7 @@ import (
 	"path/filepath"
 	"testing"
 	"time"
+	_ "time/tzdata" // zone names resolve without a system tz database (the check runs the production build under several TZ values)
 
 	"github.com/glowlabs-org/gca-backend/client"
 	"github.com/glowlabs-org/gca-backend/glow"
@@ -37,8 +38,15 @@ func refSlot(u, g int64) (int64, bool) {
 
 func TestC20ProdGenesisAndClock(t *testing.T) {
 	ev.Rule("C20(prod build): GenesisTime equals 1700352000 = 2023-11-19T00:00:00Z; CurrentTimeslot() is bracketed by the reference slot of two time.Now() readings; production constants are exported to the main-build job for the window-safety inequality")
+	// The host's time zone must not matter: the driver runs this test under
+	// TZ=UTC, a zone east and a zone west of it.
+	_, zoneOffset := time.Now().Zone()
+	ev.Label(fmt.Sprintf("c20:prod-zone-offset-%+dh", zoneOffset/3600))
+	if tz := os.Getenv("TZ"); tz != "" && tz != "UTC" && zoneOffset == 0 {
+		ev.Label("c20:prod-zone-not-applied")
+	}
 	if int64(glow.GenesisTime) != wantGenesis {
-		t.Fatalf("C20: production GenesisTime = %d, want %d", int64(glow.GenesisTime), wantGenesis)
+		t.Fatalf("C20: production GenesisTime = %d, want %d (host zone offset %d s)", int64(glow.GenesisTime), wantGenesis, zoneOffset)
 	}
 	if d := time.Date(2023, 11, 19, 0, 0, 0, 0, time.UTC).Unix(); d != int64(glow.GenesisTime) {
 		t.Fatalf("C20: production GenesisTime %d is not 2023-11-19T00:00:00Z (%d)", int64(glow.GenesisTime), d)
